@@ -320,6 +320,26 @@ impl Prop for CliFaithful {
         let mut h = Fnv::default();
         let w = case.write();
         h.u64(hash_bytes(&w.bytes));
+        // reader faithfulness as a structural statement (the binary's own reader, in-process):
+        // the parsed compact game IS the game the file was written from
+        {
+            let fmt = case.format;
+            let parsed = std::panic::catch_unwind(std::panic::AssertUnwindSafe(|| {
+                let mut rd: &[u8] = &w.bytes;
+                if fmt == Format::Json {
+                    crate::real_main::verif::json_from_reader(&mut rd)
+                } else {
+                    crate::real_main::verif::gambit_from_reader(&mut rd)
+                }
+            }));
+            if let Ok((g, _)) = parsed {
+                m.add("reader_structure_checks", 1);
+                let model = rename_model(&case.game, &w.names);
+                if let Err(e) = crate::cli::structure::same_game(&model, &g, 2.0 * w.slack) {
+                    return finish(m, h, viol("cli-reader-structure", "", format!("the {} reader built a different game from the file: {e}", fmt.name())), vec![]);
+                }
+            }
+        }
         let out = run_simcli(&w.bytes, &case.route, &case.opts, &case.env, &[]);
         proc_metrics(&mut m, &out);
         h.u64(out.status.unwrap_or(-1) as u64);
